@@ -15,7 +15,8 @@ RULE = (
     "every label on >=2 tensors or in the output; hyper labels, batch "
     "outputs, disconnected parts allowed) x random tree x order in {dfs, "
     "surface_order, callable} x compress_late x chi in {1,2,4,16,huge}. "
-    "Oracle at chi=huge: flops == CostRef total flops; max_size == max("
+    "Oracle at chi=huge AND at chi = the largest bond that arises (computed by "
+    "an own simulation: nothing is truncated at either): flops == CostRef total flops; max_size == max("
     "largest input, largest intermediate); write == CostRef write + total "
     "input size. For every chi: max_size, peak_size and write <= their "
     "uncapped values. For connected ordinary networks the compressed finders "
@@ -111,23 +112,47 @@ def run_stats(spec):
     st_ = cr.stats(steps)
     in_sizes = [math.prod(sizes[ix] for ix in t) for t in inputs]
 
+    # the tightest cap that still truncates nothing: the largest product of
+    # sizes of labels shared by exactly the same set of current tensors, over
+    # every configuration the contraction goes through (my own simulation)
+    nodes = [frozenset([i]) for i in range(n)]
+    tight = 1
+
+    def bonds(nodes):
+        groups = {}
+        for k_, nd in enumerate(nodes):
+            for ix in cr.legs(nd):
+                if ix not in output:
+                    groups.setdefault(ix, set()).add(k_)
+        by_inc = {}
+        for ix, inc in groups.items():
+            by_inc.setdefault(frozenset(inc), []).append(ix)
+        return [math.prod(sizes[ix] for ix in ixs) for ixs in by_inc.values()]
+
+    tight = max([tight] + bonds(nodes))
+    for p_, l_, r_ in steps:
+        nodes = [nd for nd in nodes if nd != l_ and nd != r_] + [p_]
+        tight = max([tight] + bonds(nodes))
+
     res = {}
-    for chi in (1, 2, 4, 16, HUGE):
+    for chi in (1, 2, 4, 16, tight, HUGE):
         ok, tr = guarded(tree.compressed_contract_stats, chi=chi, order=order, compress_late=late)
         if not ok:
             viol.append(f"compressed_contract_stats(chi={chi}) raised {tr}")
             return Outcome(viol, False, ["error"])
         res[chi] = (tr.flops, tr.max_size, tr.peak_size, tr.write)
-    f, ms, pk, w = res[HUGE]
-    if f != st_["flops"]:
-        viol.append(f"uncapped compressed flops {f} != exact flops {st_['flops']}")
     want_ms = max(in_sizes + [s for _, _, s in st_["per"]])
-    if ms != want_ms:
-        viol.append(f"uncapped compressed max_size {ms} != largest tensor {want_ms}")
-    if w != st_["write"] + sum(in_sizes):
-        viol.append(
-            f"uncapped compressed write {w} != exact write {st_['write']} + inputs {sum(in_sizes)}"
-        )
+    for chi, name in ((HUGE, "uncapped"), (tight, f"chi={tight} (= the largest bond that arises)")):
+        f, ms, pk, w = res[chi]
+        if f != st_["flops"]:
+            viol.append(f"{name}: compressed flops {f} != exact flops {st_['flops']}")
+        if ms != want_ms:
+            viol.append(f"{name}: compressed max_size {ms} != largest tensor {want_ms}")
+        if w != st_["write"] + sum(in_sizes):
+            viol.append(
+                f"{name}: compressed write {w} != exact write {st_['write']} + inputs {sum(in_sizes)}"
+            )
+    f, ms, pk, w = res[HUGE]
     for chi in (1, 2, 4, 16):
         _, ms_c, pk_c, w_c = res[chi]
         if ms_c > ms or pk_c > pk or w_c > w:
